@@ -27,7 +27,7 @@ def main():
             "thorough_cmd": "./check %s --tier thorough" % pid,
             "evidence_file": "/verif/evidence/%s.json" % pid,
             "replay_cmd_template": "./check %s --replay {path}" % pid,
-            "engine": "+".join((["vx"] if c["units"] else []) + (["kx"] if c.get("kani") else [])),
+            "engine": "+".join((["vx"] if c["units"] else []) + (["kx"] if (c.get("kani") or any(P.UNIT_KANI.get(u) for u in c["units"])) else [])),
             "level_claimed": {"category": c["level"], "text": c["level_text"], "design_ref": c.get("design_ref", "DESIGN.md §5")},
             "level_note": c["level_note"],
             "technique": c["technique"],
@@ -46,7 +46,7 @@ def main():
         "engines": [
             {"name": "vx", "path": "/verif/vx", "serves_properties": [p for p in sorted(P.PROPS) if P.PROPS[p]["units"]],
              "kind_free_text": "contract-based deductive verification: Verus 0.2026.09.13 on functions extracted mechanically from /repo on every run (ghost-erasure check keeps the verified text identical to the repository text)"},
-            {"name": "kx", "path": "/verif/vx/kx.py", "serves_properties": [p for p in sorted(P.PROPS) if P.PROPS[p].get("kani")],
+            {"name": "kx", "path": "/verif/vx/kx.py", "serves_properties": [p for p in sorted(P.PROPS) if P.PROPS[p].get("kani") or any(P.UNIT_KANI.get(u) for u in P.PROPS[p]["units"])],
              "kind_free_text": "Kani 0.68 / CBMC 6.11 harnesses over full-domain symbolic inputs, injected into a per-run scratch copy of the real crate"},
         ],
         "checks": checks,
